@@ -185,6 +185,9 @@ type Decl struct {
 	// not add one; what gombok emits for a field of this type (a catch-all Given, or a reference to an
 	// undeclared instance = refusal) is the thing observed.
 	NoInstance bool
+	// Via: forced case "ondemand": the container kind through which the only user of this plain struct
+	// reaches it (slice, seq, option, ptr, gomap, tuple2, or "direct+<kind>" for the second level).
+	Via string
 }
 
 const (
@@ -370,6 +373,17 @@ type Derive struct {
 	Decl      *Decl
 	Recursive bool // recursive=true option (inherited by implicit derivations)
 	Implicit  bool // not a directive: expected from recursive=true of another one
+	// DP: derive package of the directive when it is not the library's (tcPkg): one of the scratch
+	// module's own derive packages (altDerivePkgs: foldeq for fp.Eq, upshow for fp.Show), inherited by
+	// the derivations the directive triggers on demand.
+	DP string
+}
+
+func (x *Derive) derivePkg() string {
+	if x.DP != "" {
+		return x.DP
+	}
+	return tcPkg[x.TC]
 }
 
 // Override is a hand-written instance.
@@ -398,6 +412,9 @@ type Pkg struct {
 	ImportGiven []TC
 	Imports     []*Pkg
 	SortedSeq   bool // declares EqSeq(eqT, ordT) comparing sorted copies (README section 7)
+	// Tag: forced case "multi": which order of differing directive contexts the package has
+	// (plain-first, recursive-first, library-first, alternative-first)
+	Tag string
 }
 
 func (p *Pkg) refusable() bool { return len(p.UndeclaredOK) > 0 || p.UndeclaredPrefix != "" }
@@ -594,6 +611,7 @@ type resolution struct {
 	ov   *Override
 	ctx  *Pkg // package whose instances apply to the fields
 	rec  bool
+	dp   string // derive package of the directive that produced the instance ("" = the library's)
 }
 
 // defaultApplies: the derive package offers an instance for the named type by type unification
@@ -624,8 +642,8 @@ func defaultApplies(tc TC, d *Decl, rec bool) bool {
 	case Monoid:
 		return false
 	case Clone:
-		if d.NoInstance {
-			return true // the catch-all clone.Given[T any] is all there is
+		if d.NoInstance && !(rec && d.derivable()) {
+			return true // the catch-all clone.Given[T any] is all there is (a recursive=true directive derives it on demand)
 		}
 		if rec && d.derivable() {
 			return false
@@ -649,7 +667,7 @@ func resolveNamed(tc TC, ctx *Pkg, d *Decl, rec bool) resolution {
 		return resolution{mode: mLocalOverride, ov: o}
 	}
 	if x := ctx.findDerive(tc, d); x != nil && !x.Implicit {
-		return resolution{mode: mLocalDerived, ctx: ctx, rec: x.Recursive}
+		return resolution{mode: mLocalDerived, ctx: ctx, rec: x.Recursive, dp: x.DP}
 	}
 	if d.Pkg != ctx {
 		if o := d.Pkg.findOverride(tc, namedTarget(d)); o != nil {
@@ -658,7 +676,7 @@ func resolveNamed(tc TC, ctx *Pkg, d *Decl, rec bool) resolution {
 		// only a directive of the type's package is relied upon: an instance that package derives
 		// on demand (recursive=true) may or may not exist
 		if x := d.Pkg.findDerive(tc, d); x != nil && !x.Implicit {
-			return resolution{mode: mTypePkgDerive, ctx: d.Pkg, rec: x.Recursive}
+			return resolution{mode: mTypePkgDerive, ctx: d.Pkg, rec: x.Recursive, dp: x.DP}
 		}
 	}
 	if defaultApplies(tc, d, rec) {
@@ -668,7 +686,7 @@ func resolveNamed(tc TC, ctx *Pkg, d *Decl, rec bool) resolution {
 	// recursive=true derivations (a plain directive that needs it gets its own directive: gombok
 	// does not reliably see on-demand instances from plain derivations)
 	if x := ctx.findDerive(tc, d); x != nil && x.Implicit && rec {
-		return resolution{mode: mRecDerived, ctx: ctx, rec: true}
+		return resolution{mode: mRecDerived, ctx: ctx, rec: true, dp: x.DP}
 	}
 	return resolution{mode: mNone}
 }
